@@ -79,8 +79,20 @@ def script_cases(behaviours, seed0):
             shape = "multi_gene" if max(G) > 1 else "single_gene"
             spec = _species_spec(cs["sp"])
             script = x_c18.bd_script(hist, sim, 0, True)
-            # argument histories of the model: an earlier call, then the mapping re-applied in place (three routes)
-            ops = [dict(o, how=("dict", "fn", "attr")[k % 3]) if o["op"] == "remap" else o for o in mops]
+            # argument histories of the model: an earlier call, then the mapping re-applied in place (three routes);
+            # the species tree annotated (ages, root distances, bipartitions cached), then its edge lengths scaled in place
+            ops = []
+            for o in mops:
+                if o["op"] == "remap":
+                    ops.append(dict(o, how=("dict", "fn", "attr")[k % 3]))
+                elif o["op"] == "rescale":
+                    f = o["p"][0]
+                    spec = dict(spec, len=[x / f for x in spec["len"]])          # cs.sp is the tree as it is NOW
+                    ops.append({"op": "edit_len", "f": float(f), "how": ("scale_edges", "direct")[k % 2]})
+                elif o["op"] == "annotate":
+                    ops.append({"op": "annotate", "what": ("all", "ages", "internal_ages")[k % 3]})
+                else:
+                    ops.append(o)
             cases.append(dict(base, api="contained_coalescent_tree", shape=shape, ntaxa=sum(G), G=G, sp=spec, pop=1, script=script, ops=ops))
             if not any(o["op"] == "remap" for o in mops):
                 cases.append(dict(base, api="constrained_kingman_tree", shape=shape, ntaxa=sum(G), G=G, sp=spec,
@@ -182,7 +194,9 @@ def _history_cases(r, base, cc, ck, N, birth, death):
             r.shuffle(p)
         ops.append({"op": "remap", "p": p, "how": r.choice(["dict", "fn", "attr"])})
     elif q < 0.75:
-        ops.append({"op": "edit_len", "f": r.choice([0.5, 2.0, 4.0])})
+        if r.random() < 0.7:
+            ops.append({"op": "annotate", "what": r.choice(["all", "ages", "internal_ages", "root_dist", "bipartitions"])})
+        ops.append({"op": "edit_len", "f": r.choice([0.5, 2.0, 4.0]), "how": r.choice(["direct", "scale_edges"])})
     elif q < 0.9:
         ops.append({"op": "edit_pop", "pops": [r.choice([1, 2, 0.5, 3]) for _ in cc["sp"]["par"]]})
     if ops:
@@ -190,8 +204,12 @@ def _history_cases(r, base, cc, ck, N, birth, death):
     # 2. constrained Kingman: the population tree used before (gene_nodes left on it), edited lengths, other gene counts
     ops = [{"op": "call"}]
     q = r.random()
-    if q < 0.3:
-        ops.append({"op": "edit_len", "f": r.choice([0.5, 2.0])})
+    if q < 0.4:
+        if r.random() < 0.5:
+            ops = []
+        if r.random() < 0.8:
+            ops.append({"op": "annotate", "what": r.choice(["all", "ages", "internal_ages", "root_dist", "bipartitions"])})
+        ops.append({"op": "edit_len", "f": r.choice([0.5, 2.0, 4.0]), "how": r.choice(["direct", "scale_edges"])})
     elif q < 0.5 and ck["strategy"] == "node_attribute":
         ops.append({"op": "set_genes", "G": [r.choice([1, 2, 3]) for _ in ck["G"]]})
     elif q < 0.6:
@@ -214,6 +232,14 @@ def _history_cases(r, base, cc, ck, N, birth, death):
         ops.append({"op": "add_taxa", "labels": ["x%d" % i for i in range(r.choice([1, 2]))]})
     c["ops"] = ops
     out.append(c)
+    # 4. a supplied start tree looked at (ages, root distances, bipartitions cached) and then rescaled in place
+    api, model = r.choice([("birth_death_tree", "bd"), ("fast_birth_death_tree", "fast")])
+    st = r.choice([{"par": [0, 1, 1], "len": [0.0, 1.0, 1.0], "labels": ["A", "B"]},
+                   {"par": [0, 1, 2, 2, 1], "len": [0.0, 1.0, 0.5, 0.5, 1.5], "labels": ["A", "B", "C"]}])
+    out.append(dict(base, via="rng", api=api, model=model, N=r.choice([3, 4, 6]), birth=birth, death=death, shape="start_tree", start=st,
+                    ops=[{"op": "annotate", "what": r.choice(["all", "ages", "root_dist"])},
+                         {"op": "edit_len", "f": r.choice([0.5, 2.0, 4.0]), "how": r.choice(["direct", "scale_edges"])}]))
+    out[-1]["ntaxa"] = out[-1]["N"]
     return out
 
 
@@ -256,7 +282,7 @@ def run(ctx):
         del driven
     ctx.rule = ("cases = every finished behaviour (decision sequence) of the dumped TLC model MC_TreeSim (%d behaviours, %d scripted "
                 "real executions x 2 runs over birth_death_tree, fast_birth_death_tree, uniform_pure_birth_tree, pure_kingman_tree, "
-                "contained_coalescent_tree, constrained_kingman_tree) + %d seeds x 11 simulator calls (3 of them after an argument history: earlier call on the same objects, mapping re-applied / species tree or namespace edited in place) with random.Random(seed), each run twice; "
+                "contained_coalescent_tree, constrained_kingman_tree) + %d seeds x 12 simulator calls (4 of them after an argument history: earlier call on the same objects, tree annotated with ages/root distances/bipartitions then rescaled, mapping re-applied / species tree or namespace edited in place) with random.Random(seed), each run twice; "
                 "distinct_nontrivial = distinct (api, shape, projected result tree) with >= 2 leaves" % (nbeh, len(scases), nseeds))
     ctx.exhaustive = True
     ctx.extra["exhaustive_domain"] = ("every decision sequence of MC_TreeSim that finishes within the bounds of %s (all %d), each replayed on "
